@@ -80,6 +80,12 @@ def cases(ctx, primes):
                 for a in vals[:12] + rnd[:4]:
                     for e in [0, 1, 2, 3, 5, 64, 255, 65537] + small[:2]:
                         lines.append((op, a, e, p))
+                # exponents between 2^20 and 2^32: the result must come from modular exponentiation in
+                # bounded time, never from building the unreduced power (2 s watchdog in the harness)
+                for a in (2, 3, vals[-1]):
+                    for e in (1 << 20, 10 ** 7, (1 << 31) - 1, 1 << 31, (1 << 32) - 1, 4000000000, 1 << 32, 10 ** 12):
+                        if e < p:
+                            lines.append((op, a, e, p))
                 for i in range(npow):     # full-size exponents are slow in the model
                     lines.append((op, rnd[i], rnd[-1 - i], p))
                 lines.append((op, 2, p - 1, p))
